@@ -106,6 +106,11 @@ def cases(tier, seed, shard, nshards):
                     idx += 1
                     if idx % nshards == shard:
                         yield {"kind": "apply", "n": n, "npos": npos, "susp": idx % 2, "fail": fail, "exc": exc}
+            # awaitables that compare equal to each other (hashable or unhashable): each one is awaited all the same
+            for kind in ("equal_hashable", "equal_unhashable"):
+                idx += 1
+                if idx % nshards == shard:
+                    yield {"kind": "apply", "n": n, "npos": npos, "susp": idx % 2, "fail": None, "awaitables": kind}
 
 
 class CancelLike(BaseException):
@@ -485,7 +490,24 @@ def run_apply(case, stats):
             raise boom
         return vals[i]
 
-    coros = [aw(i) for i in range(n)]
+    class EqualAwaitable:
+        """Awaitables with VALUE equality: all equal to each other (like frozen request records), hashable or not."""
+
+        def __init__(self, i):
+            self.i = i
+
+        def __await__(self):
+            return aw(self.i).__await__()
+
+        def __eq__(self, other):
+            return isinstance(other, EqualAwaitable)
+
+        __hash__ = (lambda self: 7) if case.get("awaitables") == "equal_hashable" else None  # type: ignore[assignment]
+
+    if case.get("awaitables"):
+        coros = [EqualAwaitable(i) for i in range(n)]
+    else:
+        coros = [aw(i) for i in range(n)]
     pos = coros[:npos]
     kw = {f"k{i}": coros[i] for i in range(npos, n)}
     seen = {}
@@ -520,7 +542,8 @@ def run_apply(case, stats):
         if order != list(range(case["fail"] + 1)):
             viols.append({"key": "apply/await-order", "msg": f"apply {case}: awaited {order} although argument {case['fail']} failed"})
     for c in coros:
-        c.close()
+        if hasattr(c, "close"):
+            c.close()
     if CTX.foreign:
         viols.append({"key": "apply/foreign-suspension", "msg": CTX.foreign[0]})
     stats["apply_runs"] += 1
